@@ -362,6 +362,25 @@ impl<'a, C: Crypto> PaseResponder<'a, C> {
         let ca: HmacHashRef<'_> = pake3.ca.0.try_into()?;
 
         let verify_result = self.spake2p.verify(ca);
+
+        // The window may have been closed (revoked, timed out) since PASEPake1: a PASE
+        // session must not come into existence without one. As for PASEPake1, drop silently.
+        let notify_mdns = || exchange.matter().transport().notify_mdns_changed();
+        let notify_change =
+            |endpt_id, cluster_id| self.notify.notify_cluster_changed(endpt_id, cluster_id);
+        let has_comm_window = exchange.with_state(|state| {
+            state
+                .pase
+                .check_comm_window_timeout(notify_mdns, notify_change)?;
+
+            Ok(state.pase.comm_window().is_some())
+        })?;
+
+        if !has_comm_window {
+            debug!("Dropping PASEPake3: no commissioning window open");
+            return Ok(false);
+        }
+
         let success = verify_result.is_ok();
 
         let status = match verify_result {
